@@ -251,6 +251,9 @@ def run(ctx):
                     bound.add(op.get("kid"))
                 if k == "delete":
                     bound.discard(op.get("kid"))
+            elif k == "plant":
+                if line.startswith("plant ok"):
+                    seq_names.add(op.get("keyName"))
             elif k == "migrate":
                 bound |= seq_names  # binds only kids equal to key names (uuids of orphan keys); never a kid New published
             if k in ("sign", "resolve", "decrypt", "decryptjwe") and re.match(r"\S+( \S+)? ok", line) and op.get("kid") not in bound:
@@ -262,6 +265,13 @@ def run(ctx):
                 found_violation |= ctx.violation("C03:ks:%s-touched-key-file-outside-key-dir" % k,
                                                  f"{k} for kid {op.get('kid')!r} reached the decoy key file outside the key directory: {line[:160]}",
                                                  "ks-outside-key-dir.jsonl", "\n".join(ops[seq_start:i + 1]))
+            # Resolve(K) must hand out the public half of the key that signs for K (adjacent sign/resolve probes of one state)
+            if k == "resolve" and i > 0 and '"op":"sign"' in ops[i - 1] and json.loads(ops[i - 1]).get("kid") == op.get("kid"):
+                ms, mr = re.search(r" ok verifies=\[(K\d+)\]", impl[i - 1]), re.match(r"resolve ok key=(K\d+)", line)
+                if ms and mr and ms.group(1) != mr.group(1):
+                    found_violation |= ctx.violation("C03:ks:resolve-returns-another-key-than-the-one-that-signs",
+                                                     f"kid {op.get('kid')!r}: signature verifies with {ms.group(1)}, Resolve returns {mr.group(1)}",
+                                                     "ks-resolve-vs-sign.jsonl", "\n".join(ops[seq_start:i + 1]))
             if k == "sign":
                 m = re.search(r" ok verifies=\[(.*?)\](.*)$", line)
                 if m:
